@@ -68,6 +68,7 @@ func jwsContentReqs(t jwsTerms) []treq {
 
 type coseTerms struct {
 	P, crit, scheme, label, hmap, algMap, labelMap string
+	enc, dec                                          string // the package's CBOR encoder / decoder mode objects
 }
 
 func coseNames(c *Check) coseTerms {
@@ -81,8 +82,15 @@ func coseNames(c *Check) coseTerms {
 	for _, g := range c.globalsOfType("ncg/signature/cose", "map[ncg/signature.SigningScheme]string") {
 		t.labelMap = g
 	}
+	t.enc, t.dec = "ncg/signature/cose.encMode", "ncg/signature/cose.decMode"
+	for _, g := range c.globalsOfType("ncg/signature/cose", "github.com/fxamacker/cbor/v2.EncMode") {
+		t.enc = g
+	}
+	for _, g := range c.globalsOfType("ncg/signature/cose", "github.com/fxamacker/cbor/v2.DecMode") {
+		t.dec = g
+	}
 	t.label = t.labelMap + "[" + t.scheme + "]"
-	t.hmap = "github.com/fxamacker/cbor/v2.Unmarshal((github.com/fxamacker/cbor/v2.DecMode).Unmarshal(ncg/signature/cose.decMode, recv.base.Headers.RawProtected, &$[[]byte])!2, &$[map[any]github.com/fxamacker/cbor/v2.RawMessage])!1"
+	t.hmap = "github.com/fxamacker/cbor/v2.Unmarshal((github.com/fxamacker/cbor/v2.DecMode).Unmarshal(" + t.dec + ", recv.base.Headers.RawProtected, &$[[]byte])!2, &$[map[any]github.com/fxamacker/cbor/v2.RawMessage])!1"
 	return t
 }
 
